@@ -35,11 +35,19 @@ ENTRIES = ['body', '_body', 'POST', 'forms', 'files', 'json', '_get_body_string'
 def check(P, R):
     R.rule('C12.a', 'only client errors escape the body accessors', floor=10)
     R.rule('C12.b', 'readers raise RequestErrors; _body converts them', floor=10)
-    R.rule('C12.c', 'delivered text fields are whole parts', floor=3)
+    R.rule('C12.c', 'delivered text fields are whole parts', floor=6)
     R.rule('C12.d', 'hand-written scanners make progress', floor=4)
     R.rule('C12.e', 'oversized urlencoded / JSON text refused', floor=3)
 
     E = Escapes(P)
+
+    def proven_total(f, node, cname):
+        # int(x, 16) behind a gate proven to admit nothing but hex digits cannot raise ValueError
+        if cname == 'ValueError' and isinstance(node, ast.Call) and dotted(node.func) == 'int' and f.fq == f'{BM}:_iter_chunked':
+            gates = c05.hex_gates(P, f, node)
+            return bool(gates) and all(ok or 'rejects legal hex digits' in det for (_, ok, det) in gates)
+        return False
+    E.suppress = proven_total
     cls_ = P.cls(f'{BM}:BodyMixin')
     entries = [cls_.methods[n] for n in ENTRIES if n in cls_.methods]
     R.require(len(entries) == len(ENTRIES), 'BodyMixin accessor missing')
@@ -128,6 +136,10 @@ def check(P, R):
     ok = bool(calls) and src(calls[0].args[1]) == 'headers_slice' and src(calls[0].args[2]) == 'data_slice'
     R.ob('C12.c', ii, calls[0] if calls else ii.node, ok, text='field.read(src, headers_slice, data_slice)', detail='' if ok else
          'a field is not read from its own header/data sections')
+
+    # a field must not take over bytes of the following part: the delimiter found resets the carried remainder
+    from . import c06
+    c06.check_eat_data_resets(P, _Sub(R, {}), 'C12.c')
 
     # ---- d: progress
     pq = P.func('ombott.request_pkg.helpers:parse_qsl')
